@@ -125,6 +125,9 @@ func (g *tgen) defsFields() []string {
 	return out
 }
 
+// IDL with a wrapper struct W whose fields 1..n have the root types: all roots come from ONE parseType call, so
+// equally named structs are the same *TypeDescriptor in every root (pointer equality as in production, where a
+// sub-schema is cut out of the schema it was derived from).
 func (g *tgen) idlMulti(roots ...*Ty) string {
 	s := "namespace go verif\n"
 	for i := len(g.structs) - 1; i >= 0; i-- {
@@ -141,31 +144,133 @@ func (g *tgen) idlMulti(roots ...*Ty) string {
 		}
 		s += "}\n"
 	}
-	s += "service Svc {\n"
+	s += "struct W {\n"
 	for i, r := range roots {
-		s += fmt.Sprintf("  %s M%d(1: %s req)\n", r.Name, i, r.Name)
+		s += fmt.Sprintf("  %d: optional %s r%d\n", i+1, r.idlName(), i)
 	}
-	s += "}\n"
+	s += "}\nservice Svc { W M(1: W req) }\n"
 	return s
 }
 
-func parseRoots(idl string, n int) ([]*thrift.TypeDescriptor, error) {
-	svc, err := thrift.Options{}.NewDescritorFromContent(context.Background(), "a.thrift", idl, map[string]string{}, false)
+func parseRoots(idl string, n int, popts thrift.Options) ([]*thrift.TypeDescriptor, error) {
+	svc, err := popts.NewDescritorFromContent(context.Background(), "a.thrift", idl, map[string]string{}, false)
 	if err != nil {
 		return nil, err
 	}
+	fn := svc.Functions()["M"]
+	if fn == nil {
+		return nil, fmt.Errorf("no function M")
+	}
+	w := fn.Request().Struct().FieldById(1).Type()
 	var out []*thrift.TypeDescriptor
 	for i := 0; i < n; i++ {
-		fn := svc.Functions()[fmt.Sprintf("M%d", i)]
-		if fn == nil {
-			return nil, fmt.Errorf("no function M%d", i)
+		f := w.Struct().FieldById(thrift.FieldID(i + 1))
+		if f == nil {
+			return nil, fmt.Errorf("no field %d in W", i+1)
 		}
-		out = append(out, fn.Request().Struct().FieldById(1).Type())
+		out = append(out, f.Type())
 	}
 	return out, nil
 }
 
+// self-referential shapes: a tree node type and a variant of it (fields dropped / added), each recursive in itself,
+// plus a shape whose recursive field keeps pointing to the ORIGINAL node type (shared descriptor below a varied root)
+func (g *tgen) recursiveShapes() (from, to *Ty) {
+	r := g.r
+	mk := func() *Ty {
+		g.nname++
+		t := &Ty{K: thrift.STRUCT, Name: fmt.Sprintf("S%d", g.nname)}
+		g.structs = append(g.structs, t)
+		return t
+	}
+	sc := func() *Ty { return &Ty{K: scalarKinds[r.intn(len(scalarKinds))]} }
+	n := mk()
+	n.Fields = []*Fld{
+		{ID: 1, Name: "v", T: sc(), Req: r.intn(3)},
+		{ID: 2, Name: "next", T: n, Req: 2},
+		{ID: 3, Name: "kids", T: &Ty{K: thrift.LIST, Elem: n}, Req: r.intn(2) * 2},
+		{ID: 64, Name: "m", T: &Ty{K: thrift.MAP, Key: &Ty{K: thrift.STRING}, Elem: n}, Req: 0},
+		{ID: 300, Name: "x", T: sc(), Req: 0},
+	}
+	m := mk()
+	rec := m
+	if r.chance(35) {
+		rec = n // below the root the original (shared) node type
+	}
+	for _, f := range n.Fields {
+		if f.ID != 1 && r.chance(30) {
+			continue
+		}
+		nf := &Fld{ID: f.ID, Name: f.Name, T: f.T, Req: f.Req}
+		switch f.ID {
+		case 2:
+			nf.T = rec
+		case 3:
+			nf.T = &Ty{K: thrift.LIST, Elem: rec}
+			if r.chance(30) {
+				nf.T.K = thrift.SET
+			}
+		case 64:
+			nf.T = &Ty{K: thrift.MAP, Key: &Ty{K: thrift.STRING}, Elem: rec}
+		}
+		m.Fields = append(m.Fields, nf)
+	}
+	if r.chance(50) {
+		m.Fields = append(m.Fields, &Fld{ID: 7, Name: "added", T: sc(), Req: r.intn(2)})
+	}
+	return n, m
+}
+
+// bounded value of a (possibly self-referential) shape
+func (g *tgen) genValueBounded(t *Ty, depth int) *Val {
+	switch t.K {
+	case thrift.STRUCT:
+		v := &Val{T: t}
+		for _, f := range t.Fields {
+			if f.Req != 1 && (g.r.chance(25) || (depth >= 3 && f.T.K != thrift.STRUCT && f.T.isComplexTy())) {
+				continue
+			}
+			if f.T.K == thrift.STRUCT && f.Req != 1 && depth >= 3 {
+				continue
+			}
+			v.FIDs = append(v.FIDs, f.ID)
+			v.Fields = append(v.Fields, g.genValueBounded(f.T, depth+1))
+		}
+		return v
+	case thrift.LIST, thrift.SET:
+		v := &Val{T: t}
+		for n := g.r.intn(3); n > 0; n-- {
+			v.Elems = append(v.Elems, g.genValueBounded(t.Elem, depth+1))
+		}
+		return v
+	case thrift.MAP:
+		v := &Val{T: t}
+		seen := map[string]bool{}
+		for n := g.r.intn(3); n > 0; n-- {
+			k := g.genValueBounded(t.Key, depth+1)
+			kb := string(k.encode(nil))
+			if seen[kb] {
+				continue
+			}
+			seen[kb] = true
+			v.Keys = append(v.Keys, k)
+			v.Elems = append(v.Elems, g.genValueBounded(t.Elem, depth+1))
+		}
+		return v
+	}
+	return g.genValue(t, depth)
+}
+
+func (t *Ty) isComplexTy() bool {
+	return t.K == thrift.STRUCT || t.K == thrift.LIST || t.K == thrift.SET || t.K == thrift.MAP
+}
+
 func genC11(r *rng, n int) {
+	genC11Thrift(r.fork(), n)
+	genC11Proto(r.fork(), n/2)
+}
+
+func genC11Thrift(r *rng, n int) {
 	nv := n / 6
 	if nv < 4 {
 		nv = 4
@@ -175,24 +280,36 @@ func genC11(r *rng, n int) {
 		g.maxDepth = 3
 		g.allowReq = true
 		g.structKeys = true
-		vShape := g.genStruct(0)
-		fShape := g.variant(vShape, 0)
-		if fShape == vShape || r.chance(40) {
-			fShape = vShape
+		var vShape, fShape, tShape *Ty
+		recursive := r.chance(12)
+		if recursive {
+			fShape, tShape = g.recursiveShapes()
+			vShape = fShape
+			if r.chance(30) {
+				fShape, tShape = tShape, fShape
+			}
+		} else {
+			vShape = g.genStruct(0)
+			fShape = g.variant(vShape, 0)
+			if fShape == vShape || r.chance(40) {
+				fShape = vShape
+			}
+			tShape = g.variant(fShape, 0)
 		}
-		tShape := g.variant(fShape, 0)
 		if r.chance(12) {
 			tShape = fShape // the identical descriptor
 		}
 		idl := g.idlMulti(fShape, tShape)
-		roots, err := parseRoots(idl, 2)
+		optBitmap := r.chance(20)
+		popts := thrift.Options{SetOptionalBitmap: optBitmap}
+		roots, err := parseRoots(idl, 2, popts)
 		if err != nil {
 			die("generated IDL does not parse: %v\n%s", err, idl)
 		}
 		shared := 1
 		from, to := roots[0], roots[1]
 		if r.chance(35) { // descriptors from two separate parses: structurally equal sub-descriptors are not pointer-equal
-			roots2, err := parseRoots(idl, 2)
+			roots2, err := parseRoots(idl, 2, popts)
 			if err != nil {
 				die("second parse: %v", err)
 			}
@@ -200,8 +317,13 @@ func genC11(r *rng, n int) {
 			shared = 0
 		}
 		defs := g.defsFields()
-		for k := 0; k < 4; k++ {
-			val := g.genValue(vShape, 0)
+		for k := 0; k < 6; k++ {
+			var val *Val
+			if recursive {
+				val = g.genValueBounded(vShape, 0)
+			} else {
+				val = g.genValue(vShape, 0)
+			}
 			buf := val.encode(nil)
 			bits := r.intn(8)
 			opts := &generic.Options{DisallowUnknow: bits&1 != 0, NotCheckRequireNess: bits&2 != 0, WriteDefault: bits&4 != 0, UseNativeSkip: r.chance(20)}
@@ -213,6 +335,9 @@ func genC11(r *rng, n int) {
 				ec = 9
 			} else {
 				ec = errClass(e)
+			}
+			if optBitmap {
+				bits |= 16
 			}
 			f := append([]string(nil), defs...)
 			f = append(f, fi(g.structIndex(fShape)), fi(g.structIndex(tShape)), fi(bits|shared<<3), fx(buf), fi(ec), fx(outb))
